@@ -36,7 +36,11 @@ func (w *World) rulesAutomaton(p *Pkg, m *parseModel, add func(ok bool, rule, in
 		for i, s := range list {
 			if s == ast.Stmt(m.splitAs) {
 				pre = list[:i]
-				tail = list[i+1:]
+				skip := 1
+				if len(m.splitRegion) > 1 && i+len(m.splitRegion) <= len(list) {
+					skip = len(m.splitRegion)
+				}
+				tail = list[i+skip:]
 				return true
 			}
 			found := false
@@ -652,4 +656,239 @@ func orEmpty(s string) string {
 		return "the start"
 	}
 	return s
+}
+
+// continuationOf returns the statements that run after `target` inside the
+// loop body, up to the end of the iteration: the rest of its statement list,
+// then the rest of each enclosing list. Enclosing statements other than plain
+// blocks and if-statements make the continuation undefined.
+func continuationOf(body *ast.BlockStmt, target ast.Stmt) ([]ast.Stmt, bool) {
+	var walk func(list []ast.Stmt) ([]ast.Stmt, bool, bool)
+	walk = func(list []ast.Stmt) (cont []ast.Stmt, found, ok bool) {
+		for i, s := range list {
+			if s == target {
+				return append([]ast.Stmt(nil), list[i+1:]...), true, true
+			}
+			var inner [][]ast.Stmt
+			switch x := s.(type) {
+			case *ast.BlockStmt:
+				inner = append(inner, x.List)
+			case *ast.IfStmt:
+				for cur := x; cur != nil; {
+					inner = append(inner, cur.Body.List)
+					switch el := cur.Else.(type) {
+					case *ast.BlockStmt:
+						inner = append(inner, el.List)
+						cur = nil
+					case *ast.IfStmt:
+						cur = el
+					default:
+						cur = nil
+					}
+				}
+			default:
+				contains := false
+				ast.Inspect(s, func(n ast.Node) bool {
+					if n == ast.Node(target) {
+						contains = true
+					}
+					return !contains
+				})
+				if contains {
+					return nil, true, false
+				}
+				continue
+			}
+			for _, l := range inner {
+				if c, f, o := walk(l); f {
+					if !o {
+						return nil, true, false
+					}
+					return append(c, list[i+1:]...), true, true
+				}
+			}
+		}
+		return nil, false, true
+	}
+	c, f, o := walk(body.List)
+	return c, f && o
+}
+
+// freeStep decides, for the free-order parsers, what the loop does with one
+// element after it was split, by evaluating the rest of the iteration once per
+// scenario: the defined-once check and Set both succeed / the first fails /
+// the second fails. Scanner variables are unknown, every other local opaque.
+type freeStepVerdict struct {
+	decided          bool
+	why              string
+	setOK, kvmOK     bool
+	noskipOK         bool
+	setWhy, kvmWhy   string
+	noskipWhy        string
+	kvmBeforeSet     bool
+	kvmCallSeen      bool
+	scenariosDecided int
+}
+
+func (p *Pkg) freeStep(m *parseModel, kvmCall *ast.CallExpr) freeStepVerdict {
+	info := p.Info
+	var body *ast.BlockStmt
+	switch lp := m.loop.(type) {
+	case *ast.ForStmt:
+		body = lp.Body
+	case *ast.RangeStmt:
+		body = lp.Body
+	}
+	if body == nil || m.splitAs == nil || m.setCall == nil {
+		return freeStepVerdict{why: "no loop body"}
+	}
+	cont, ok := continuationOf(body, m.splitAs)
+	if !ok {
+		return freeStepVerdict{why: "the element split sits inside a statement other than a block or an if"}
+	}
+	type scen struct{ kvmFails, setFails bool }
+	run := func(sc scen) (ct ctrl, v Val, setCalls, kvmCalls int, kvmFirst bool, err error) {
+		ce := newCEnv(p, make([]uint8, len(p.Fields)))
+		ce.hook = func(e *cEnv, call *ast.CallExpr, fn *types.Func, args []Val) (Val, bool, error) {
+			switch {
+			case call == m.setCall:
+				setCalls++
+				if sc.setFails {
+					return Val{K: VOpaque, S: "set-error"}, true, nil
+				}
+				return Val{K: VNil}, true, nil
+			case kvmCall != nil && call == kvmCall:
+				kvmCalls++
+				if setCalls == 0 {
+					kvmFirst = true
+				}
+				if sc.kvmFails {
+					return Val{K: VOpaque, S: "kvm-error"}, true, nil
+				}
+				return Val{K: VNil}, true, nil
+			}
+			if fn.Pkg() != nil && fn.Pkg() != p.P.Types && fn.Pkg().Path() != "strings" {
+				return Val{K: VOpaque, S: fn.Name()}, true, nil
+			}
+			return Val{}, false, nil
+		}
+		ast.Inspect(m.fd.Body, func(n ast.Node) bool {
+			if id, ok := n.(*ast.Ident); ok {
+				if o, ok := info.Defs[id].(*types.Var); ok && o != nil {
+					if b, ok := o.Type().Underlying().(*types.Basic); !ok || (b.Info()&types.IsInteger == 0 && b.Info()&types.IsString == 0) {
+						ce.vars[o] = Val{K: VOpaque, S: o.Name()}
+					} else {
+						ce.vars[o] = Val{K: VUnk}
+					}
+				}
+			}
+			return true
+		})
+		// error-typed locals declared without a value start at nil
+		ast.Inspect(m.fd.Body, func(n ast.Node) bool {
+			if ds, ok := n.(*ast.DeclStmt); ok {
+				if gd, ok := ds.Decl.(*ast.GenDecl); ok && gd.Tok == token.VAR {
+					for _, sp := range gd.Specs {
+						vs := sp.(*ast.ValueSpec)
+						if len(vs.Values) == 0 {
+							for _, nm := range vs.Names {
+								if o := info.Defs[nm]; o != nil {
+									if _, isIface := o.Type().Underlying().(*types.Interface); isIface {
+										ce.vars[o] = Val{K: VNil}
+									}
+								}
+							}
+						}
+					}
+				}
+			}
+			return true
+		})
+		if pv, ok := m.param.(*types.Var); ok {
+			ce.vars[pv] = Val{K: VUnk}
+		}
+		// the element's halves are unknown: a test on them is undecided
+		ce.vars[m.abvObj] = Val{K: VUnk}
+		ce.vars[m.valObj] = Val{K: VUnk}
+		if m.objVar != nil {
+			ce.vars[m.objVar] = Val{K: VOpaque, S: "obj"}
+		}
+		ct, v, err = ce.execBlock(cont)
+		if err == nil && ct == cBreak {
+			// single-exit style: the loop is left, the statements after it answer
+			var post []ast.Stmt
+			seen := false
+			for _, s := range m.fd.Body.List {
+				if s == m.loop {
+					seen = true
+					continue
+				}
+				if seen {
+					post = append(post, s)
+				}
+			}
+			ct, v, err = ce.execBlock(post)
+			if err == nil && ct != cReturn {
+				ct = cBreak
+			}
+		}
+		return
+	}
+	out := freeStepVerdict{decided: true}
+	describe := func(ct ctrl, v Val) string {
+		switch ct {
+		case cReturn:
+			if v.K == VTuple && len(v.T) == 2 {
+				if v.T[1].K == VNil {
+					return "returns success"
+				}
+				obj := "a nil object"
+				if v.T[0].K != VNil {
+					obj = "a non-nil object"
+				}
+				return "returns the error " + v.T[1].S + " with " + obj
+			}
+			return "returns"
+		case cBreak:
+			return "leaves the loop"
+		}
+		return "goes on to the next element"
+	}
+	// both succeed: the element is consumed, Set was applied exactly once
+	ct, v, nSet, nKvm, kvmFirst, err := run(scen{})
+	if err != nil {
+		return freeStepVerdict{why: "the rest of the iteration cannot be evaluated: " + err.Error()}
+	}
+	out.kvmCallSeen = nKvm > 0
+	out.kvmBeforeSet = kvmFirst
+	out.noskipOK = ct != cReturn && ct != cBreak && nSet == 1
+	if out.noskipOK {
+		out.noskipWhy = "evaluating the rest of the iteration with the defined-once check and Set succeeding: Set is applied once to the element and the loop goes on"
+	} else {
+		out.noskipWhy = fmt.Sprintf("after an element is split, with the defined-once check and Set succeeding, the parser %s having called Set %d time(s)", describe(ct, v), nSet)
+	}
+	// Set fails
+	ct, v, _, _, _, err = run(scen{setFails: true})
+	if err != nil {
+		return freeStepVerdict{why: "the rest of the iteration cannot be evaluated: " + err.Error()}
+	}
+	out.setOK = ct == cReturn && v.K == VTuple && len(v.T) == 2 && v.T[0].K == VNil && v.T[1].K == VOpaque && v.T[1].S == "set-error"
+	if out.setOK {
+		out.setWhy = "evaluating the rest of the iteration with Set failing: (nil, Set's error) is returned unchanged"
+	} else {
+		out.setWhy = "when Set fails the parser " + describe(ct, v) + " instead of returning (nil, Set's error)"
+	}
+	if kvmCall != nil {
+		ct, v, nSet, _, _, err = run(scen{kvmFails: true})
+		if err != nil {
+			return freeStepVerdict{why: "the rest of the iteration cannot be evaluated: " + err.Error()}
+		}
+		out.kvmOK = ct == cReturn && v.K == VTuple && len(v.T) == 2 && v.T[0].K == VNil && v.T[1].K == VOpaque && v.T[1].S == "kvm-error"
+		if out.kvmOK {
+			out.kvmWhy = "evaluating the rest of the iteration with the defined-once check failing: (nil, its error) is returned unchanged"
+		} else {
+			out.kvmWhy = "when the defined-once check fails the parser " + describe(ct, v) + " instead of returning (nil, its error)"
+		}
+	}
+	return out
 }
